@@ -21,3 +21,70 @@ pub fn instruction_table() -> Vec<(u8, String, usize)> {
     }
     out
 }
+
+/// Read-only views of the interpreter state.
+pub mod inspect {
+    use crate::value::Value;
+    use crate::vm::runtime::cao_lang_object::CaoLangObject;
+    use crate::vm::runtime::RuntimeData;
+    use std::ptr::NonNull;
+    use std::sync::atomic::Ordering;
+
+    pub fn value_stack(rt: &RuntimeData) -> Vec<Value> {
+        rt.value_stack.as_slice().to_vec()
+    }
+
+    pub fn value_stack_len(rt: &RuntimeData) -> usize {
+        rt.value_stack.len()
+    }
+
+    pub fn call_stack_len(rt: &RuntimeData) -> usize {
+        rt.call_stack.len()
+    }
+
+    /// `(src_instr_ptr, dst_instr_ptr, stack_offset, closure as an address or 0)` per frame,
+    /// outermost first
+    pub fn call_frames(rt: &RuntimeData) -> Vec<(u32, u32, u32, usize)> {
+        rt.call_stack
+            .iter()
+            .map(|f| (f.src_instr_ptr, f.dst_instr_ptr, f.stack_offset, f.closure as usize))
+            .collect()
+    }
+
+    pub fn globals(rt: &RuntimeData) -> Vec<Value> {
+        rt.global_vars.clone()
+    }
+
+    pub fn objects(rt: &RuntimeData) -> Vec<NonNull<CaoLangObject>> {
+        rt.object_list.clone()
+    }
+
+    /// the open upvalue list, head first
+    pub fn open_upvalues(rt: &RuntimeData) -> Vec<*mut CaoLangObject> {
+        let mut out = Vec::new();
+        let mut cur = rt.open_upvalues;
+        unsafe {
+            while let Some(o) = cur.as_ref() {
+                out.push(cur);
+                match o.as_upvalue() {
+                    Some(u) => cur = u.next,
+                    None => break,
+                }
+                if out.len() > 100_000 {
+                    break;
+                }
+            }
+        }
+        out
+    }
+
+    /// `(allocated, next_gc, limit)` of the interpreter's allocator
+    pub fn allocator_counters(rt: &RuntimeData) -> (usize, usize, usize) {
+        let a = &*rt.memory;
+        (
+            a.allocated.load(Ordering::Relaxed),
+            a.next_gc.load(Ordering::Relaxed),
+            a.limit.load(Ordering::Relaxed),
+        )
+    }
+}
